@@ -79,7 +79,8 @@ SPECS = ["", "d", "x", "#06x", "+d", "b", "_b", ">8", " d", "#X", "o", "*<7d", "
 
 def tasks(tier):
     ts = [("format", k) for k in range(len(arg_forms()))]
-    ts += [("string",), ("activity", "print"), ("activity", "assert"), ("activity", "assume"), ("literal",)]
+    ts += [("string",), ("activity", "print"), ("activity", "assert"), ("activity", "assume"), ("literal",),
+           ("activity", "print-under-enable"), ("activity", "assert-under-enable")]
     ts += [("grammar", t) for t in "bodxXcs "] + [("grammar-reject",)]
     return ts
 
@@ -254,6 +255,47 @@ def unit_activity(kind):
     return runner.from_exploration(name, Exploration(name, body).run(), {"source_excerpt": src[:500]})
 
 
+def unit_activity_inserted(kind):
+    """a monitor fragment whose clocked domain holds ONLY Print / Assert statements, wrapped in EnableInserter: it emits /
+    fails exactly at the edges at which the enable is high (the control inserter must gate a domain even when no signal is
+    driven from it)"""
+    from amaranth.hdl import Module, Print, Assert, Format, Signal, ClockDomain, EnableInserter
+    name = f"activity[{kind}]"
+    en, cond, x = Signal(name="en"), Signal(4, name="cond"), Signal(4, name="x")
+    mon = Module()
+    if kind == "print-under-enable":
+        mon.d.sync += Print(Format("x={}", x))
+    else:
+        mon.d.sync += Assert(cond, Format("bad {:d}", x))
+    top = Module()
+    top.domains += ClockDomain("sync", reset_less=True)
+    top.submodules.mon = EnableInserter(en)(mon)
+    design, state, procs = capture.compile_design(top)
+    (proc, src), = [(p, s) for p, s in procs if not p.is_comb]
+
+    def body(path):
+        vals = {}
+        for sig in (en, cond, x):
+            sh = sig.shape()
+            v = path.var(sig.name, *shape_range(sh.width, sh.signed))
+            state.slot(sig).curr = state.slot(sig).next = v
+            vals[sig.name] = v
+        active = vals["en"] != 0
+        raised = None
+        with captured_print() as cp:
+            try:
+                proc.run()
+            except AssertionError as e:
+                raised = e
+        if kind == "print-under-enable":
+            printed = len(cp.calls) > 0
+            path.prove(f"{name}::emits-iff-enabled", active if printed else Not(active))
+        else:
+            should = And(active, vals["cond"] == 0)
+            path.prove(f"{name}::raises-iff-enabled-and-zero", should if raised is not None else Not(should))
+    return runner.from_exploration(name, Exploration(name, body).run(), {"source_excerpt": src[:500]})
+
+
 def _spec_space(tier_thorough=False):
     fills = [None, "x", "0", " ", "{", "}", "é"]
     aligns = [None, "<", ">", "="]
@@ -382,6 +424,8 @@ def run_task(task):
     if k == "literal":
         return unit_literal()
     if k == "activity":
+        if task[1].endswith("-under-enable"):
+            return unit_activity_inserted(task[1])
         return unit_activity(task[1])
     if k == "grammar":
         return unit_grammar(task[1])
